@@ -46,7 +46,7 @@ def common(ctx, info, what, focus):
     ctx.coverage["evaluations"] += stats["runs"]
     ctx.coverage["distinct_nontrivial"] += stats["completed"]
     from .. import edgesuite
-    edgesuite.run(ctx, next(iter(what)), focus=[n for n, s in sks.items() if not s["prov"] and n != "ImperialistCompetitiveOptimization"])
+    edgesuite.run(ctx, next(iter(what)), info=info, focus=[n for n, s in sks.items() if not s["prov"] and n != "ImperialistCompetitiveOptimization"])
 
 
 def run(ctx, info):
